@@ -107,8 +107,9 @@ class FakeElec:
 class ShellModel:
     """minimal model object for constructing a trajectory whose electronics are supplied by hand"""
 
-    def __init__(self, nstates, mass):
-        self.mass = np.array(mass, dtype=np.float64)
+    def __init__(self, nstates, mass, dtype=np.float64):
+        # dtype=None keeps the caller's dtype: a user-defined model may well hand over integer-valued masses as an int array
+        self.mass = np.array(mass, dtype=dtype) if dtype is not None else np.array(mass)
         self._n = nstates
 
     def nstates(self):
